@@ -160,8 +160,8 @@ theorem fillDefaults_has (E : Ext) (b : Bool) : ∀ (fs : List FieldInfo) (vals 
         · exact fillDefaults_has E b fs _ all h f hf hi
       · cases h
 
-theorem runHook_none {info : PaneInfo} (h : info.hook = none) (vals : List (String × Val)) :
-    runHook E info vals = .ok vals := by
+theorem runHook_none {info : PaneInfo} (h : info.hook = none) (vals : List (String × Val))
+    (set : List String) : runHook E info vals set = .ok vals := by
   simp only [runHook, h]
 
 theorem paneTryTuple_inv {info : PaneInfo} {fs} {v x : Val} (hhook : info.hook = none)
@@ -409,7 +409,7 @@ theorem mkObj_canon (E : Ext) (b : Bool) (info : PaneInfo) (a : FieldInfo → Va
     canonObj E b info a := by
   have hdN := distinctStrs_filter (·.name) (!·.exclude) info.fields hd
   have hdX := distinctStrs_filter (·.name) (·.exclude) info.fields hd
-  simp only [mkObj, canonObj, nonExclNames]
+  simp only [mkObj, canonSet, canonObj, nonExclNames]
   congr 1
   · apply filterMap_eq_map
     intro f hf
